@@ -225,3 +225,155 @@ Proof. vm_compute. auto. Qed.
 (* the form the correspondence run evaluates: tables indexed by the number of the nonterminal *)
 Definition closed_tbl (g : grammar) (axiom : nat) (NL : list nat) (FIt : list (list nat)) (FOt : list (list (option nat))) : bool :=
   closed_b g axiom NL (fun x => nth x FIt []) (fun x => nth x FOt []).
+
+(* ---------- why the loop of create_first_follow_sets ends with closed sets ----------
+   One pass of the loop performs, for every rule, the unions that the closure conditions ask for (FIRST of a leading
+   symbol into FIRST of the left hand side while the symbols before it are nullable; FIRST of what follows a nonterminal
+   into its FOLLOW; FOLLOW of the left hand side into it when the rest is nullable) and reports whether any of them
+   changed a set.  The loop ends after a pass that reports no change.  Model: a union that would not add anything
+   returns the tables as they are and `false'.  Theorem: a pass that reports no change leaves the tables as they were,
+   and these tables satisfy the FIRST and FOLLOW conditions of [closed_b] (the conditions on the nullable flags and on the
+   end of input come from elsewhere: set_empty_access_derives and the rule $S : start $eof).  A pass whose report
+   forgets one of the unions (the seeded changes to term_set_or and to the FOLLOW-from-FOLLOW step) loses exactly this. *)
+Section Pass.
+Variable NL : list nat.
+
+Definition upd {A} (f : nat -> A) (x : nat) (v : A) : nat -> A := fun y => if Nat.eqb y x then v else f y.
+
+Fixpoint first_pass (x : nat) (al : list symbol) (FI : nat -> list nat) : (nat -> list nat) * bool :=
+  match al with
+  | [] => (FI, false)
+  | T b :: _ => if memb b (FI x) then (FI, false) else (upd FI x (FI x ++ [b]), true)
+  | N y :: r =>
+      let '(F1, c1) := if incl_b (FI y) (FI x) then (FI, false) else (upd FI x (FI x ++ FI y), true) in
+      if nl NL y then let '(F2, c2) := first_pass x r F1 in (F2, c1 || c2) else (F1, c1)
+  end.
+
+Lemma first_pass_nochange x al FI : snd (first_pass x al FI) = false ->
+  fst (first_pass x al FI) = FI /\ first_ok NL FI x al = true.
+Proof.
+  induction al as [|[b|y] al IH]; simpl; intros H.
+  - auto.
+  - destruct (memb b (FI x)); simpl in *; [auto | discriminate].
+  - destruct (incl_b (FI y) (FI x)) eqn:Ei.
+    + destruct (nl NL y) eqn:En.
+      * destruct (first_pass x al FI) as [F2 c2] eqn:E2. simpl in *. subst c2.
+        destruct (IH eq_refl) as [I1 I2]. split; [exact I1 | rewrite I2; reflexivity].
+      * simpl. auto.
+    + destruct (nl NL y).
+      * destruct (first_pass x al (upd FI x (FI x ++ FI y))) as [F2 c2]. simpl in H. discriminate.
+      * simpl in H. discriminate.
+Qed.
+
+Section Follow.
+Variable FI : nat -> list nat.
+
+Fixpoint into_pass (r : list symbol) (y : nat) (FO : nat -> list (option nat)) : (nat -> list (option nat)) * bool :=
+  match r with
+  | [] => (FO, false)
+  | T b :: _ => if memo (Some b) (FO y) then (FO, false) else (upd FO y (FO y ++ [Some b]), true)
+  | N z :: r' =>
+      let '(O1, c1) := if forallb (fun a => memo (Some a) (FO y)) (FI z) then (FO, false)
+                       else (upd FO y (FO y ++ map Some (FI z)), true) in
+      if nl NL z then let '(O2, c2) := into_pass r' y O1 in (O2, c1 || c2) else (O1, c1)
+  end.
+
+Lemma into_pass_nochange r y FO : snd (into_pass r y FO) = false ->
+  fst (into_pass r y FO) = FO /\ form_first_into NL FI r (FO y) = true.
+Proof.
+  induction r as [|[b|z] r IH]; simpl; intros H.
+  - auto.
+  - destruct (memo (Some b) (FO y)); simpl in *; [auto | discriminate].
+  - destruct (forallb (fun a => memo (Some a) (FO y)) (FI z)) eqn:Ef.
+    + destruct (nl NL z) eqn:En.
+      * destruct (into_pass r y FO) as [O2 c2] eqn:E2. simpl in *. subst c2.
+        destruct (IH eq_refl) as [I1 I2]. split; [exact I1 | rewrite I2; reflexivity].
+      * simpl. auto.
+    + destruct (nl NL z).
+      * destruct (into_pass r y (upd FO y (FO y ++ map Some (FI z)))) as [O2 c2]. simpl in H. discriminate.
+      * simpl in H. discriminate.
+Qed.
+
+Fixpoint follow_pass (x : nat) (al : list symbol) (FO : nat -> list (option nat)) : (nat -> list (option nat)) * bool :=
+  match al with
+  | [] => (FO, false)
+  | T _ :: r => follow_pass x r FO
+  | N y :: r =>
+      let '(O1, c1) := into_pass r y FO in
+      let '(O2, c2) := if nl_form NL r then (if inclo_b (O1 x) (O1 y) then (O1, false) else (upd O1 y (O1 y ++ O1 x), true))
+                       else (O1, false) in
+      let '(O3, c3) := follow_pass x r O2 in (O3, c1 || c2 || c3)
+  end.
+
+Lemma follow_pass_nochange x al FO : snd (follow_pass x al FO) = false ->
+  fst (follow_pass x al FO) = FO /\ follow_ok NL FI FO x al = true.
+Proof.
+  induction al as [|[b|y] al IH]; simpl; intros H.
+  - auto.
+  - auto.
+  - destruct (into_pass al y FO) as [O1 c1] eqn:E1.
+    destruct (nl_form NL al) eqn:En.
+    + destruct (inclo_b (O1 x) (O1 y)) eqn:Ei.
+      * destruct (follow_pass x al O1) as [O3 c3] eqn:E3. simpl in H.
+        apply orb_false_iff in H. destruct H as [H12 H3]. apply orb_false_iff in H12. destruct H12 as [H1 _]. subst c1 c3.
+        pose proof (into_pass_nochange al y FO) as P. rewrite E1 in P. destruct (P eq_refl) as [P1 P2]. simpl in P1. subst O1.
+        rewrite E3 in IH. destruct (IH eq_refl) as [I1 I2]. simpl in I1. subst O3.
+        split; [reflexivity|]. rewrite P2, Ei, I2. reflexivity.
+      * destruct (follow_pass x al (upd O1 y (O1 y ++ O1 x))) as [O3 c3]. simpl in H.
+        rewrite orb_true_r in H. discriminate.
+    + destruct (follow_pass x al O1) as [O3 c3] eqn:E3. simpl in H.
+      apply orb_false_iff in H. destruct H as [H12 H3]. apply orb_false_iff in H12. destruct H12 as [H1 _]. subst c1 c3.
+      pose proof (into_pass_nochange al y FO) as P. rewrite E1 in P. destruct (P eq_refl) as [P1 P2]. simpl in P1. subst O1.
+      rewrite E3 in IH. destruct (IH eq_refl) as [I1 I2]. simpl in I1. subst O3.
+      split; [reflexivity|]. rewrite P2, I2. reflexivity.
+Qed.
+End Follow.
+
+Definition tables := ((nat -> list nat) * (nat -> list (option nat)))%type.
+
+Definition rule_pass (st : tables * bool) (r : rule) : tables * bool :=
+  let '((FI, FO), c) := st in
+  let '(FI1, c1) := first_pass (lhs r) (rhs r) FI in
+  let '(FO1, c2) := follow_pass FI1 (lhs r) (rhs r) FO in
+  ((FI1, FO1), c || c1 || c2).
+
+Definition pass (g : grammar) (t : tables) : tables * bool := fold_left rule_pass g (t, false).
+
+Lemma rule_pass_flag st r : snd st = true -> snd (rule_pass st r) = true.
+Proof.
+  destruct st as [[FI FO] c]. simpl. intros ->. unfold rule_pass.
+  destruct (first_pass (lhs r) (rhs r) FI) as [FI1 c1]. destruct (follow_pass FI1 (lhs r) (rhs r) FO) as [FO1 c2]. reflexivity.
+Qed.
+
+Lemma fold_flag g : forall st, snd st = true -> snd (fold_left rule_pass g st) = true.
+Proof. induction g as [|r g IH]; intros st H; simpl; auto. apply IH. apply rule_pass_flag. exact H. Qed.
+
+Lemma pass_nochange_rules g : forall FI FO, snd (fold_left rule_pass g ((FI, FO), false)) = false ->
+  fst (fold_left rule_pass g ((FI, FO), false)) = (FI, FO) /\
+  forall r, In r g -> first_ok NL FI (lhs r) (rhs r) = true /\ follow_ok NL FI FO (lhs r) (rhs r) = true.
+Proof.
+  induction g as [|r g IH]; intros FI FO H; simpl in *.
+  - split; [reflexivity | intros r []].
+  - destruct (first_pass (lhs r) (rhs r) FI) as [FI1 c1] eqn:E1.
+    destruct (follow_pass FI1 (lhs r) (rhs r) FO) as [FO1 c2] eqn:E2.
+    destruct (c1 || c2) eqn:Ec.
+    + simpl in H. rewrite fold_flag in H by reflexivity. discriminate.
+    + apply orb_false_iff in Ec. destruct Ec as [-> ->]. simpl in H.
+      pose proof (first_pass_nochange (lhs r) (rhs r) FI) as P. rewrite E1 in P. destruct (P eq_refl) as [P1 P2]. simpl in P1. subst FI1.
+      pose proof (follow_pass_nochange FI (lhs r) (rhs r) FO) as Q. rewrite E2 in Q. destruct (Q eq_refl) as [Q1 Q2]. simpl in Q1. subst FO1.
+      destruct (IH FI FO H) as [I1 I2]. split; [exact I1|].
+      intros r' [<-|Hr']; auto.
+Qed.
+
+Theorem pass_without_change_means_closed g axiom FI FO :
+  snd (pass g (FI, FO)) = false ->
+  (forall r, In r g -> nl_form NL (rhs r) = true -> nl NL (lhs r) = true) ->      (* the flags of set_empty_access_derives *)
+  memo None (FO axiom) = true ->                                                 (* $S : start $eof *)
+  closed_b g axiom NL FI FO = true.
+Proof.
+  intros H Hn He. unfold pass in H. destruct (pass_nochange_rules g FI FO H) as [_ Hr].
+  unfold closed_b. rewrite He, andb_true_r. apply forallb_forall. intros r Hin.
+  destruct (Hr r Hin) as [H1 H2]. unfold closed_rule. rewrite H1, H2, !andb_true_r.
+  destruct (nl_form NL (rhs r)) eqn:E; auto.
+Qed.
+End Pass.
